@@ -476,7 +476,7 @@ def run(rep, ctx):
     rep.rule("R08.9", "re-wrapping of the normalised positions snaps coordinates only within numerical noise (a snapped atom no longer satisfies its expressions; shared with C05)")
     with rep.guard("R08.9"):
         from . import c05 as _c05b
-        _c05b.r05_6(rep, ctx.model, "R08.9")
+        _c05b.r05_6(rep, ctx.model, "R08.9", reduction=True)
     rep.rule("R08.10", "every tabulated position carries the letter the reference Wyckoff database assigns to an orbit placed on it (the analyzer takes the "
              "letter from spglib and the expressions from the table; shared with C14)")
     with rep.guard("R08.10"):
